@@ -74,6 +74,8 @@ pub trait SchedHook: Send + Sync {
     /// Called by a library thread at a scheduling point. Returns when the thread may proceed.
     /// `ready` tells whether the operation could complete now without blocking.
     fn point(&self, p: Point, ready: &dyn Fn() -> bool);
+    /// Switch the controller off and let every parked participant continue freely.
+    fn release(&self);
 }
 
 static SCHED_ON: AtomicBool = AtomicBool::new(false);
@@ -94,6 +96,15 @@ pub fn is_exempt() -> bool {
 pub fn sched_install(h: Arc<dyn SchedHook>) {
     *SCHED.write().unwrap() = Some(h);
     SCHED_ON.store(true, Ordering::SeqCst);
+}
+
+/// Release whatever controller is installed (used by teardown paths that may run while a
+/// controller is still active, e.g. when a scenario's set-up fails half way).
+pub fn sched_release() {
+    let h = SCHED.read().unwrap().clone();
+    if let Some(h) = h {
+        h.release();
+    }
 }
 
 pub fn sched_remove() {
